@@ -95,3 +95,7 @@ Definition screen_without (s : screen_t) (sel : bvec) : result screen_t := const
 (* Screen(<every column>[sel], observation_mask = np.ones(count_nonzero(sel)), the parent's mappings) *)
 Definition screen_observed_of (s : screen_t) (sel : bvec) : result screen_t :=
   construct (map (set_mask true) (vselect sel s)).
+(* ---- vocabulary of the source translation of create_random_holdout (Generated/SrcRetroGen.v) ---- *)
+(* math.ceil(screen.size * fraction): exact ceiling, or Python's own value [count] (see the header) *)
+Definition ceil_size (s : screen_t) (num : Z) (den : positive) (count : option Z) : Z :=
+  match count with Some c => c | None => ceil_frac (length s) num den end.
